@@ -1,4 +1,5 @@
 SPECIFICATION FairSpec
+CONSTANT Ser = TRUE
 CONSTANT Bar = TRUE
 CONSTANT Pop = "dec2"
 INVARIANT TypeOK
